@@ -5,6 +5,7 @@ Property theorems only (helper lemmas: `SradModel/Proofs/HostSeq.lean`).
 import SradModel.Proofs.HostSeq
 
 namespace Srad.Host
+open Srad.Host.SeqP
 
 /-- **Order, for every history** (duplicates, losses, any arrival order): the messages one step
 applies carry consecutive sequence numbers starting at the expected one; unless the step ends in
